@@ -97,6 +97,8 @@ async fn resolve_recursive_notimeout<'a>(
     if let Some(candidates) = candidates {
         let mut match_count = candidates.match_count();
         let mut candidate_hostnames = candidates.hostnames;
+        #[cfg(resolved_verif)]
+        crate::verif::order_candidates(&mut candidate_hostnames);
         let mut next_candidate_hostnames = Vec::with_capacity(candidate_hostnames.len());
         let mut resolve_candidates_locally = true;
 
@@ -135,6 +137,8 @@ async fn resolve_recursive_notimeout<'a>(
                         Err(delegation) => {
                             match_count = delegation.match_count();
                             candidate_hostnames = delegation.hostnames;
+                            #[cfg(resolved_verif)]
+                            crate::verif::order_candidates(&mut candidate_hostnames);
                             next_candidate_hostnames =
                                 Vec::with_capacity(candidate_hostnames.len());
                             resolve_candidates_locally = true;
@@ -1221,4 +1225,14 @@ mod tests {
 
         cache
     }
+}
+
+/// Exposes `validate_nameserver_response` to the verification harness.
+#[cfg(resolved_verif)]
+pub fn verif_validate_nameserver_response(
+    question: &Question,
+    response: &Message,
+    current_match_count: usize,
+) -> Option<NameserverResponse> {
+    validate_nameserver_response(question, response, current_match_count)
 }
